@@ -7,13 +7,13 @@ PROPS = ["C%02d" % i for i in range(1, 20)]
 # property -> (technique, level text, design ref)
 CLAIMS = {
  "C01": ("control-dependence (edge-dominance) of match acceptance and whole-file-op detection, value provenance of the short-size class, cyclic must-pass-through framing rules on the writer loops, set agreement of emitted vs handled op/series kinds, codec pairing (go/ssa)",
-         "Decides structural necessary conditions, not the behaviour: a block matches only under non-empty window, equal short-size class (taken from the final short read) and strong-hash equality; whole-file ops are recognised only under equal sizes, full span and BLOCK_RANGE; every file's series is opened by a SyncHeader and closed by HEY_YOU_DID_IT on every path of WritePatch and Optimize (BsdiffHeader before a bsdiff series, unmapped ops copied verbatim); emitted op and series kinds are handled by the patcher; the fresh bowl prepares its folder; compressors/decompressors pair up. The rolling search, replay arithmetic and tree equality are NOT decided.",
+         "Decides structural necessary conditions, not the behaviour: a block matches only under non-empty window, equal short-size class (taken from the final short read) and strong-hash equality; whole-file ops are recognised only under equal sizes, full span and BLOCK_RANGE; every file's series is opened by a SyncHeader and closed by HEY_YOU_DID_IT on every path of WritePatch and Optimize (BsdiffHeader before a bsdiff series, unmapped ops copied verbatim); emitted op and series kinds are handled by the patcher; the fresh bowl prepares its folder; compressors/decompressors pair up; the copy loop that feeds differ and signer writes what it read before acting on end-of-stream. The rolling search, replay arithmetic and tree equality are NOT decided.",
          "DESIGN.md 4 (C01)"),
  "C07": ("reaching-definition analysis of divisors and of the partition count (phi operands, backward walk over local cells with branch outcomes on the way), cyclic framing path rules on Optimize, end-of-series must-pass-through (go/ssa)",
-         "Decides structural necessary conditions of 'terminates without crashing for every parameter setting' and of framing, not result equality: no integer division by a floor quotient/difference/length that can be zero without a non-zero test on every reaching definition; the partition count given to the suffix sorter is 1 or bounded against the old buffer's length; Optimize keeps per-file framing and copies unmapped ops verbatim; every bsdiff series ends with Eof. Equality of the optimized patch's result is NOT decided.",
+         "Decides structural necessary conditions of 'terminates without crashing for every parameter setting' and of framing, not result equality: no integer division by a floor quotient/difference/length that can be zero without a non-zero test on every reaching definition; the partition count given to the suffix sorter is 1 or bounded against the old buffer's length; Optimize keeps per-file framing and copies unmapped ops verbatim; every bsdiff series ends with Eof; suffix sorting and searching only ever see non-empty input; a pool read-seeker is positioned before it is consumed linearly. Equality of the optimized patch's result is NOT decided.",
          "DESIGN.md 4 (C07)"),
  "C08": ("exactly-one-update path counting, callee identity agreement (same hash functions on both sides), phi/control-dependence shape of the rolling/skip flags, loop-exhaustion edge dominance (go/ssa)",
-         "Decides structural necessary conditions of 'equal content costs no fresh bytes' and 'reused + fresh = size', not the numbers: every op written is counted exactly once; differ and signer use the same weak and strong hash functions; the rolling state is reset after a match and the lookup skipped only while rolling; the library holds every hash and the matcher gives up only after searching the whole bucket. Byte counts, the per-edit bound and the rolling-update arithmetic are NOT decided.",
+         "Decides structural necessary conditions of 'equal content costs no fresh bytes' and 'reused + fresh = size', not the numbers: every op written is counted exactly once; differ and signer use the same weak and strong hash functions; the rolling state is reset after a match and the lookup skipped only while rolling; the library holds every hash and the matcher gives up only after searching the whole bucket; a stored ShortSize is below the block size by construction (so a full last block stays matchable). Byte counts, the per-edit bound and the rolling-update arithmetic are NOT decided.",
          "DESIGN.md 4 (C08)"),
  "C11": ("value provenance of block-range fields, control-dependence of the range merge, pending-flush path rules (incl. deferred closures), who-is-called confinement to the cleaner, literal-shape bound rule for data payloads (go/ssa)",
          "Decides structural necessary conditions, not the behaviour: block ranges are built from the matched library block with span 1 and merged only under same-file contiguity; the pending range is flushed before data ops and on every return; every op leaves through the cleaner, which drops only empty non-leading data ops; every data payload is bounded by MaxDataOp by construction; the end of the pending data follows every move of the hash window's start; empty windows never match. Replay equality and the exhaustive small-alphabet enumeration are NOT decided (dynamic family).",
@@ -25,31 +25,31 @@ CLAIMS = {
          "Decides structural necessary conditions, not the behaviour: every file-system mutator reachable from the overlay bowl's patching-phase API works under the stage folder and none touches the output folder or target pool, while every output-folder mutator is reachable only from Commit (the 'old build intact until commit' sentence, structurally); commit phases run in the required order with errors checked; ghosts are deleted longest path first and detected for files, symlinks and dirs; overlays end with truncation; no integer is used both as a new-build and as an old-build file index; a directory of the new build is made only after Lstat of its path. That the commit result equals the new build, map-order independence of applyTranspositions and kind changes are NOT decided.",
          "DESIGN.md 4 (C02)"),
  "C03": ("set agreement over type-checked field accesses (saved vs restored checkpoint fields, per type and per Save/Resume implementation; gob registrations), literal-completeness, must-pass-through / error-gating path rules, constant flag checks, control-dependence provenance (go/ssa)",
-         "Decides structural necessary conditions, not the behaviour: every checkpoint field is saved and restored (type level, and per Bowl/EntryWriter implementation: what its Save writes its own Resume reads); the literal handed to SaveConsumer.Save is complete; entry writers report an offset only after Flush and a checked fsync; reopening never truncates and repositions from the checkpoint (both offsets for the overlay writer); every successful series end finalizes the writer; work lists are de-duplicated by a completed search; checkpoint payload types are gob-registered; checkpoints are requested inside the loops and offered, and never between reading a message and applying it. Agreement of the four state layers at every interruption point and content equality after resume are NOT decided.",
+         "Decides structural necessary conditions, not the behaviour: every checkpoint field is saved and restored (type level, and per Bowl/EntryWriter implementation: what its Save writes its own Resume reads); the literal handed to SaveConsumer.Save is complete; entry writers report an offset only after Flush and a checked fsync; reopening never truncates and repositions from the checkpoint (both offsets for the overlay writer); every successful series end finalizes the writer; work lists are de-duplicated by a completed search; checkpoint payload types are gob-registered; checkpoints are requested inside the loops and offered, and never between reading a message and applying it; the reader-side save protocol (R13.2) holds. Agreement of the four state layers at every interruption point and content equality after resume are NOT decided.",
          "DESIGN.md 4 (C03)"),
  "C04": ("contradiction rule over three sibling functions (empty-file special case), writer/reader stream-prefix agreement extracted from dominance-ordered framing events per stream root, value-provenance rule for the shared read, provenance of symlink-destination comparisons (go/ssa)",
-         "Decides structural necessary conditions, not the behaviour: producer, reader and grouping of signatures agree on the empty-file hash; the signature stream's and the patch stream's non-loop prefixes (magic, header, compression point, containers and their identity/order) are the same on every writer and reader; diff and signature consume two Reader()s of one multiread over pool.GetReader(fileIndex) for the same index; symlink destinations are compared modulo FromSlash only. Block boundaries under re-chunking and hash values are NOT decided.",
+         "Decides structural necessary conditions, not the behaviour: producer, reader and grouping of signatures agree on the empty-file hash; the signature stream's and the patch stream's non-loop prefixes (magic, header, compression point, containers and their identity/order) are the same on every writer and reader; diff and signature consume two Reader()s of one multiread over pool.GetReader(fileIndex) for the same index; symlink destinations are compared modulo FromSlash only; a stored ShortSize is below the block size by construction (0, a remainder, a length tested short); what a signature writer is handed carries a computed strong hash. Block boundaries under re-chunking and hash values are NOT decided.",
          "DESIGN.md 4 (C04)"),
  "C05": ("control-dependence (edge-dominance) rules over go/ssa: healthy-verdict guards, literal-shape ordering of Wound ranges, guard-token classification of wound emission sites, must-consume path rule for the aggregation loop",
-         "Decides structural necessary conditions, not the behaviour: a block is declared healthy only under index-in-range and strong-hash equality (both sibling validators); every FILE/CLOSED_FILE wound literal has Start <= End by construction; every deviation test the property enumerates (missing/kind/destination/open error/shorter/longer) controls a wound emission; the aggregator keeps, merges or forwards every incoming wound and flushes before close; the per-file check succeeds only after a wound or a full pass through the validating writer. That reported wounds cover every differing offset (block arithmetic) is NOT decided.",
+         "Decides structural necessary conditions, not the behaviour: a block is declared healthy only under index-in-range and strong-hash equality (both sibling validators); every FILE/CLOSED_FILE wound literal has Start <= End by construction; every deviation test the property enumerates (missing/kind/destination/open error/shorter/longer) controls a wound emission; the aggregator keeps, merges or forwards every incoming wound and flushes before close; the per-file check succeeds only after a wound or a full pass through the validating writer; a wound that is sent is a fresh object the sender does not overwrite later. That reported wounds cover every differing offset (block arithmetic) is NOT decided.",
          "DESIGN.md 4 (C05)"),
  "C06": ("set agreement (emitted vs handled wound kinds), error-classification rule over predicate call trees, case-region path rules (must-pass-through with edge filtering) over go/ssa",
          "Decides structural necessary conditions, not the behaviour: every emitted wound kind has a healer case; Lstat/Readlink errors in the directory and symlink passes are returned only after testing both not-exist and not-a-directory; the DIR/SYMLINK/FILE repair cases perform their repair actions in the required order on every success path (Lstat before trusting a directory, remove before create, parent before link, mark whenever queued); no function that changes a tree examines a path with os.Stat (link-following). That healed content equals the signed content and all validator/healer interleavings are NOT decided.",
          "DESIGN.md 4 (C06)"),
  "C09": ("must-pass-through / verdict-gating path rules, escape (who-may-touch) analysis of the wrapped reader, value-provenance rules for the position mirror, over go/ssa",
-         "Decides structural necessary conditions, not the behaviour: the wrapped reader is read only after validateBlock and only on its nil verdict; raw pool readers never escape the validating wrapper; validateBlock restores the saved position on every path after moving the reader; the wrapper's offset mirrors the wrapped reader's position at construction, Seek and Read; the read cache's chunk size is a constant dividing the signed block size (a chunk read never covers an unchecked block). Which damage a given patch happens to read, and the EOF case of 64KiB-multiple files (F13, arithmetic), are NOT decided.",
+         "Decides structural necessary conditions, not the behaviour: the wrapped reader is read only after validateBlock and only on its nil verdict; raw pool readers never escape the validating wrapper; validateBlock restores the saved position on every path after moving the reader; the wrapper's offset mirrors the wrapped reader's position at construction, Seek and Read; the read cache's chunk size is a constant dividing the signed block size (a chunk read never covers an unchecked block); the bytes handed to the block validator are the buffer cut at the count read. Which damage a given patch happens to read, and the EOF case of 64KiB-multiple files (F13, arithmetic), are NOT decided.",
          "DESIGN.md 4 (C09)"),
  "C12": ("end-of-series must-pass-through, offset-accounting path rules with nil/len edge filtering, slot-bookkeeping provenance rules in the read cache, reaching-definition divisor rule (go/ssa)",
-         "Decides structural necessary conditions, not the behaviour: every series ends with an Eof control on every success path; Apply positions the cache at OldOffset before adding and advances OldOffset by len(Add) and Seek exactly once on success; the cache stores a new chunk in a free slot, marks it, tells the LRU, frees exactly the evicted slot through a registered callback and frees all on Reset; partition arithmetic cannot divide by zero. That add+copy tile the new file, the suffix search and the cache's index arithmetic are NOT decided.",
+         "Decides structural necessary conditions, not the behaviour: every series ends with an Eof control on every success path; Apply positions the cache at OldOffset before adding and advances OldOffset by len(Add) and Seek exactly once on success; the cache stores a new chunk in a free slot, marks it, tells the LRU, frees exactly the evicted slot through a registered callback and frees all on Reset; partition arithmetic cannot divide by zero; suffix sorting and searching only ever see non-empty input. That add+copy tile the new file, the suffix search and the cache's index arithmetic are NOT decided.",
          "DESIGN.md 4 (C12)"),
  "C13": ("who-may-call / effect confinement of source reads, must-update path rules, typestate shape of the three-state save protocol, set agreement of codec registrations and magic constants, call-graph unreachability (go/ssa + CHA)",
          "Decides structural necessary conditions, not the behaviour: every read of the underlying source happens in the counting reader or Resume and updates the counted offset; framing reads go through the counting reader; the save protocol's transitions and the content of the popped checkpoint have the required shape and PopCheckpoint is unreachable from inside ReadMessage; compressors and decompressors are registered pairwise for the same algorithms with matching implementations, NONE is a pass-through; every magic written has a reader; Read counts are never discarded in package wire; ReadMessage resets and decodes on every success path. The round trip itself and savior's decompressor checkpoints are NOT decided.",
          "DESIGN.md 4 (C13)"),
  "C17": ("call-graph effect confinement (which calls can reach a bowl write or pool read), transitive control-dependence of the skip decision on the whitelist lookup, sibling agreement of message types read by the skip and process paths with generated-struct-tag aliasing check, must-assign path rule (go/ssa)",
-         "Decides structural necessary conditions, not the behaviour: bowl writes/transposes and old-build pool reads are reachable from Resume only through processFile and never from skipFile; skipping is decided by the whitelist lookup keyed by the checked header index and is exclusive with processing; the skip path decodes every series message type with its own type (or one that cannot alias the end marker); the series kind skipFile dispatches on is assigned from the header just read. Equality of the selected files with full application is NOT decided.",
+         "Decides structural necessary conditions, not the behaviour: bowl writes/transposes and old-build pool reads are reachable from Resume only through processFile and never from skipFile; skipping is decided by the whitelist lookup keyed by the checked header index and is exclusive with processing; the skip path decodes every series message type with its own type (or one that cannot alias the end marker); the series kind skipFile dispatches on is assigned from the header just read; the whitelist kept is the caller's map or a copy with its values. Equality of the selected files with full application is NOT decided.",
          "DESIGN.md 4 (C17)"),
  "C15": ("fork-site access-set analysis (captured variables, field paths, callee effect summaries through closures and maker functions, must-locksets, per-iteration variables, fork/join regions), natural-loop map-order rule, single-sender/token shape rules, forward slicing of ambient values (go/ssa + CHA)",
-         "Decides structural necessary conditions, not byte-identical output: at the differ's four fork sites no two concurrent units (or instances, or a unit and the parent before the join) touch overlapping locations with a write and no common lock; ranges over maps on the diff/optimize call tree have order-insensitive bodies; matches reach the bsdiff writer through one sender in token-passing order; time/CPU-count/GOMAXPROCS/random values reach only statistics and diagnostics. Slice-element races, races inside dependencies and short-read independence are NOT decided.",
+         "Decides structural necessary conditions, not byte-identical output: at the differ's four fork sites no two concurrent units (or instances, or a unit and the parent before the join) touch overlapping locations with a write and no common lock; ranges over maps on the diff/optimize call tree have order-insensitive bodies; matches reach the bsdiff writer through one sender in token-passing order; time/CPU-count/GOMAXPROCS/random values reach only statistics and diagnostics; what a unit does after its last result send is compared with what the parent does after the join; the fan-out copy loop writes what it read before acting on end-of-stream. Slice-element races, races inside dependencies and short-read independence are NOT decided.",
          "DESIGN.md 3.2, 4 (C15)"),
  "C19": ("fork-site access-set analysis with file pseudo-variables and must-locksets, per-path result-send counting (go/ssa)",
          "Decides structural necessary conditions, not tree equality: ExtractZip's workers (concurrent instances of one goroutine) and the parent before the join share no location with a write and no common lock (entry counters, progress, flags); the resume file is written only under one lock common to all write sites; every worker sends exactly one result on every path into a channel buffered for all workers and the parent collects them; the done-set behind the marker is keyed by the entry index; no tree-changing function of the archiver examines a path with os.Stat (link-following). Whether the marker value is a contiguous high-water mark is value-level and NOT decided (a seeded change of that kind is recorded as missed).",
@@ -58,7 +58,7 @@ CLAIMS = {
          "Decides structural necessary conditions, not the behaviour: the consumer goroutine drains the wound channel until closed; worker and consumer each send exactly one result on every path; every result-receiving select case re-puts and closes 'cancelled', which is closed nowhere else; the shutdown sequence dominates the return in order; relay/aggregation goroutines exit only on close and always signal; the fail-fast consumer never returns nil from its cancellation case. These quantify over all paths of the protocol code, which no schedule sample can; full deadlock freedom over all interleavings is NOT decided.",
          "DESIGN.md 4 (C16)"),
  "C18": ("must-pass-through and verdict-gating path rules over go/ssa CFGs with nil-test edge filtering; per-path event counting; constant agreement",
-         "Decides structural necessary conditions, not the behaviour: in drip.Writer every forward to the underlying writer is preceded (when a validator is set) by Validate on the same slice and unreachable after a non-nil verdict; the validate closure advances the block index exactly once per drip after using it and sends/returns the verdict; the relay goroutine is joined before close; drip buffer, safekeeper buffer and hashing contexts are exactly pwr.BlockSize. Index arithmetic of the slicing and the tiling/ordering of wounds are NOT decided.",
+         "Decides structural necessary conditions, not the behaviour: in drip.Writer every forward to the underlying writer is preceded (when a validator is set) by Validate on the same slice and unreachable after a non-nil verdict; the validate closure advances the block index exactly once per drip after using it and sends/returns the verdict; the relay goroutine is joined before close; drip buffer, safekeeper buffer and hashing contexts are exactly pwr.BlockSize; a block is declared healthy only under index-in-range and strong-hash equality (both sibling validators). Index arithmetic of the slicing and the tiling/ordering of wounds are NOT decided.",
          "DESIGN.md 4 (C18)"),
  "C10": ("interprocedural wire-taint dataflow with range-guard typestate over go/ssa (sparse fixpoint, edge-dominance guards, validator summaries)",
          "Decides a structural necessary condition, not the behaviour: on every path of every module function, an integer read from a patch/signature/overlay message reaches an index, slice bound, make size, divisor or lake-pool call only under a dominating two-sided range guard (or equality with trusted data), and SignatureInfo.Hashes is never sliced without a len() comparison. All paths of the code are covered, which no input sample can do; nil-dereference, type-assertion panics and non-termination are NOT decided.",
